@@ -170,8 +170,9 @@ CH_MULTI = [[0xc3, 0xa9], [0xe2, 0x82, 0xac], [0xf0, 0x9d, 0x84, 0x9e], [0xe2, 0
 CH_BIN_ODD = [[11], [12], [0x85], [0x80], [0xff], [0], [0x1c]]
 MODES = ["bytesio", "binfile", "textfile"]
 # after /repo 3e62fa7 the file's own / the given encoding is honoured
-REV_MODES = ["bytesio", "binfile", "textfile", "bytesio", "binfile", "textfile", "latin1file", "enc_utf8", "enc_latin1"]
-JSONL_MODES = ["bytesio", "binfile", "textfile", "bytesio", "binfile", "textfile", "latin1file"]
+REV_MODES = ["bytesio", "binfile", "textfile", "bytesio", "rawfile", "textfile", "latin1file", "enc_utf8", "enc_latin1",
+             "rwfile"]
+JSONL_MODES = ["bytesio", "binfile", "textfile", "bytesio", "rawfile", "textfile", "latin1file", "rwfile"]
 UTF8_MODES = ("textfile", "enc_utf8")
 TEXT_MODES = ("textfile", "enc_utf8", "latin1file", "enc_latin1")
 
@@ -233,13 +234,17 @@ def gen_rev(rng, tier):
             runs.append([gen_content(rng, rng.randint(0, 8), mode, lone_cr, False), 1])
         bs = [[4096, rng.choice(["pos", "kw", "default"])], [rng.choice([1000, 4095, 4097, 5000, 8192, 100000]), "kw"]]
     pos = None
-    if mode in ("bytesio", "binfile", "enc_utf8", "enc_latin1") and rng.random() < 0.15:
+    if mode in ("bytesio", "binfile", "rawfile", "rwfile", "enc_utf8", "enc_latin1") and rng.random() < 0.15:
         pos = rng.randint(0, len(expand(runs)))
         if mode == "enc_utf8":
             c = expand(runs)
             while 0 < pos < len(c) and 0x80 <= c[pos] < 0xc0:     # keep the cursor on a character boundary
                 pos -= 1
-    return {"k": "rev", "runs": runs, "mode": mode, "pos": pos, "bs": bs}
+    case = {"k": "rev", "runs": runs, "mode": mode, "pos": pos, "bs": bs}
+    if pos is None and mode not in TEXT_MODES[:1] + ("latin1file",) and rng.random() < 0.25:
+        # default preseek=True must ignore where the cursor happens to be
+        case["pre_cursor"] = rng.randint(0, len(expand(runs)))
+    return case
 
 
 J_OK = [[48], [55], [49, 50], [51, 48, 48], [34, 97, 98, 34], [34, 34], [34, 0xc3, 0xa9, 0xe2, 0x82, 0xac, 34],
@@ -316,7 +321,10 @@ def gen_jsonl(rng, tier):
                 runs.append([[10], 1])
                 runs[-2][1] = (pad - 1) % 4096
             runs = [r for r in runs if r[1]]
-    return {"k": "jsonl", "runs": runs, "mode": mode, "ie": ie}
+    case = {"k": "jsonl", "runs": runs, "mode": mode, "ie": ie}
+    if mode not in ("textfile", "latin1file") and rng.random() < 0.2:
+        case["pre_cursor"] = rng.randint(0, len(expand(runs)))
+    return case
 
 
 def generate(rng, tier, n):
@@ -351,6 +359,10 @@ class _Files:
                 f.write(self.content)
         if self.mode == "binfile":
             return open(self.path, "rb")
+        if self.mode == "rawfile":
+            return open(self.path, "rb", buffering=0)          # io.FileIO: nothing to detach
+        if self.mode == "rwfile":
+            return open(self.path, "r+b")                      # io.BufferedRandom
         if self.mode == "latin1file":
             return open(self.path, "r", encoding="latin-1")
         return open(self.path, "r", encoding="utf-8")
@@ -414,6 +426,10 @@ def run_impl(case):
                 if case["pos"] is not None:
                     f.seek(case["pos"])
                     kw["preseek"] = False
+                elif case.get("pre_cursor") is not None:
+                    f.seek(case["pre_cursor"])
+                    if bs % 2:
+                        kw["preseek"] = True
                 try:
                     if how == "default":
                         it = reverse_iter_lines(f, **kw)
@@ -438,6 +454,8 @@ def run_impl(case):
                 f = files.open()
                 try:
                     if rev:
+                        if case.get("pre_cursor") is not None:
+                            f.seek(case["pre_cursor"])         # reverse mode starts from the end regardless
                         it = JSONLIterator(f, ignore_errors=case["ie"], reverse=True)
                     elif case["ie"]:
                         it = JSONLIterator(f, ignore_errors=True)
@@ -588,6 +606,8 @@ def distribution(d, case, obs):
     if k == "rev":
         if case["pos"] is not None:
             inc("rev_preseek_false")
+        if case.get("pre_cursor") is not None:
+            inc("rev_preseek_true_from_moved_cursor")
         if any("raise" in o for o in obs):
             inc("rev_decode_error")
         if content[:1] in ([10], [13]):
@@ -602,7 +622,7 @@ def distribution(d, case, obs):
 def sample(case, obs):
     c = expand(case["runs"])
     s = {"kind": case["k"], "content_head": c[:40], "len": len(c)}
-    for key in ("mode", "pos", "bs", "ie"):
+    for key in ("mode", "pos", "pre_cursor", "bs", "ie", "margin", "newline"):
         if key in case:
             s[key] = case[key]
     s["obs"] = obs if len(str(obs)) < 600 else str(obs)[:600]
